@@ -460,6 +460,10 @@ func c08Parsers(c *ctxT) {
 		c.emit(sx.L(sx.S("parse08"), sx.S(kind), sx.B(in)), obs)
 		c.count("parse08/" + kind)
 	}
+	for i := 0; i < c.scale(10, 100); i++ { // a reply completed after Ask gave up must not panic (close of a closed channel)
+		buf, reply := r.Bytes(1+r.Intn(20)), r.Bytes(1+r.Intn(30))
+		run("mbapp-late-reply", reply, func() { mbapp.VerifLateReply(buf, reply) })
+	}
 	memParse := func(b []byte) (memswarm.Addr, error) { return memswarm.ParseAddr(b) }
 	udpParse := func(b []byte) (udpswarm.Addr, error) { return udpswarm.ParseAddr(b) }
 	schema := multiswarm.NewSchemaFromSwarms(map[string]multiswarm.DynSwarm{
